@@ -38,6 +38,10 @@ TReset == /\ IsEvent("Reset")
           /\ docs' = <<>>
 
 TEnv == IsEvent("env") /\ UNCHANGED <<slots, topos, docs>>
+\* the process changes its own CPU binding (what RESTRICT_TO_CPUBINDING looks at): no topology moves
+TBind == IsEvent("bind") /\ E.ret \in {0, -1} /\ AllUnchanged /\ UNCHANGED <<slots, topos, docs>>
+\* range lists: no common element
+RDisjoint(a, b) == \A k \in DOMAIN a : \A j \in DOMAIN b : a[k][2] < b[j][1] \/ b[j][2] < a[k][1]
 
 TInit == /\ IsEvent("init")
          /\ slots[S].st = "none"
@@ -87,6 +91,10 @@ TLoad == /\ IsEvent("load")
                     /\ t.flags = slots[S].flags
                     /\ t.filters = slots[S].filters
                     /\ \A i \in Pos(t) : O(t, i).ud = 0          \* userdata starts NULL
+                    \* RESTRICT_TO_CPUBINDING (hwloc.h: "do not consider resources outside of the process CPU binding"): nothing outside the
+                    \* binding is left, unless the binding names no processor of this topology at all (then it cannot be honoured)
+                    /\ (Bit(slots[S].flags, FLAG_RESTRICT_TO_CPUBINDING) /\ "binding" \in DOMAIN E)
+                          => (RSubset(O(t, 1).cs, E.binding) \/ RDisjoint(O(t, 1).cs, E.binding))
                /\ slots' = [slots EXCEPT ![S].st = "loaded"]
                /\ topos' = [topos EXCEPT ![S] = Tagged(E.topos[S])]
             \/ /\ E.ret = -1
@@ -184,7 +192,7 @@ TXmlImport ==
        /\ topos' = [topos EXCEPT ![S] = Tagged(t)]
   /\ UNCHANGED docs
 
-Next == TXmlExport \/ TXmlImport \/ TReset \/ TEnv \/ TInit \/ TDestroy \/ TSource \/ TFlags \/ TFilter \/ TLoad \/ TObserve \/ TExport \/ TModify \/ TDup
+Next == TXmlExport \/ TXmlImport \/ TReset \/ TEnv \/ TBind \/ TInit \/ TDestroy \/ TSource \/ TFlags \/ TFilter \/ TLoad \/ TObserve \/ TExport \/ TModify \/ TDup
 Spec == Init /\ [][Next]_<<l, slots, topos, docs>>
 
 Accepted == TLCGet("stats").diameter - 1 = Len(T)
